@@ -1,1 +1,2 @@
 import VD.Val
+import VD.FlagWitness
